@@ -358,6 +358,21 @@ loop:
 	o.lc.ShutdownInitiated(nil)
 	o.sub.Close()
 
+	// A reservation or a bid broadcast may still be in flight when the loop exits.
+	// Wait for it and take its result into account so that neither is leaked.
+	if clusterch != nil {
+		if result := <-clusterch; result.Error() == nil {
+			reservation = result.Value().(ctypes.Reservation)
+		}
+		clusterch = nil
+	}
+	if bidch != nil {
+		if result := <-bidch; result.Error() == nil {
+			o.bidPlaced = true
+		}
+		bidch = nil
+	}
+
 	// cancel reservation
 	if !won {
 		if reservation != nil {
